@@ -34,11 +34,9 @@ TRUSTED = [
     "synced_collections 1.0.1 and the copy/pickle protocol are modelled, not verified",
     "gzip framing of the persistent cache file: only the decoded mapping is compared",
 ]
-ASSUMPTIONS = ["a handle is pickled only while no shallow copy of it exists (RecursionError otherwise)",
-               "values that compare == in Python but differ in type (1 / 1.0 / True) are not mixed (C04's finding 3)",
+ASSUMPTIONS = ["values that compare == in Python but differ in type (1 / 1.0 / True) are not mixed (C04's finding 3)",
                "open_job(id=...) is only asked for ids that exist in the workspace or never existed",
-               "handles pickled into a freshly started process are not exercised (same process only)",
-               "files are written only into initialised jobs; names never clash with signac's own files"]
+                              "files are written only into initialised jobs; names never clash with signac's own files"]
 
 KEYS = ["a", "b", "c", "d"]
 VALS = {"a": [0, 1, 2], "b": [0, None, "x"], "c": [[1, 2], [1, 3], 0], "d": [{"n": [0]}, "y", [7]]}
@@ -119,6 +117,16 @@ SCRIPTS = {
     "early-copy-follows": [["NewSession", "A"], ["OpenSp", 0, typed({"a": 0})], ["Init", 0, False], ["NewSession", "A"],
                            ["OpenId", 1, "9bfd29df07674bc4aa960cf661b5acd2"], ["Copy", 1],
                            ["Edit", 1, [], ["set", "a", typed(1)]], ["IdPath", 2], ["Sp", 2], ["DocSet", 2, "p", typed(1)]],
+    # pickling handles that have live shallow copies (fix cefd325): alone, the copy, both in one pickle
+    "pickle-with-shallow-copy": [["NewSession", "A"], ["OpenSp", 0, typed({"a": 0})], ["Init", 0, False], ["Sp", 0],
+                                 ["Copy", 0], ["Pickle", 0], ["Pickle", 1], ["Pickle2", 0, 1],
+                                 ["Edit", 4, [], ["set", "a", typed(1)]], ["IdPath", 5], ["Sp", 5], ["Cached", 5],
+                                 ["DocSet", 5, "p", typed(1)], ["Init", 2, False], ["Sp", 3]],
+    # ... and restored in a freshly started process (finding 8: no lock-registry entry there)
+    "pickle-fresh-process": [["NewSession", "A"], ["OpenSp", 0, typed({"a": 0})], ["Init", 0, False], ["Copy", 0],
+                             ["Fresh", 0, 1, [["Sp", 0], ["IdPath", 1], ["DocSet", 1, "p", typed(1)], ["Init", 0]]],
+                             ["Fresh", 1, None, [["Cached", 0], ["Edit", 0, [], ["set", "a", typed(1)]], ["IdPath", 0]]],
+                             ["Doc", 0]],
     "lifecycle-clean": [["NewSession", "A"], ["NewSession", "B"], ["OpenSp", 0, typed({"a": 0, "c": [1, 2]})],
                         ["Init", 0, False], ["DocSet", 0, "p", typed([1, {"z": None}])],
                         ["WriteFile", 0, ["sub", "x.bin"], "00ff10"], ["Sp", 0], ["Copy", 0],
@@ -226,7 +234,7 @@ def random_ops(desc, W):
             continue
         if W.handles and rng.random() < 0.12:
             # ---- composite patterns (classes of histories that single random ops rarely compose)
-            pat = rng.choice(["multikey", "mutate", "copymove", "mutate-assigned"])
+            pat = rng.choice(["multikey", "mutate", "copymove", "mutate-assigned", "pickle-shared", "pickle-shared"])
             if pat == "multikey":
                 h = pick_handle(sp_safe)
                 j = W.handles[h]
@@ -254,6 +262,65 @@ def random_ops(desc, W):
                 if W.last_out == ["exn", "EDestinationExists"]:
                     g = groups.get(h)
                     dirty.update([h] + [i for i, gg in groups.items() if gg == g and g is not None])
+            elif pat == "pickle-shared":
+                # pickle (same process / freshly started process) of a handle that HAS a live shallow copy, of the
+                # copy itself, or of both in one pickle; then operations through the restored handle(s)
+                h = pick_handle(sp_safe)
+                g = groups.get(h)
+                mates = [i for i, gg in groups.items() if gg == g and i != h and g is not None and i not in orphaned]
+                if not mates and h not in orphaned:
+                    if rng.random() < 0.6:
+                        yield ["Init", h, False]
+                    before = len(W.handles)
+                    yield ["Copy", h]
+                    if len(W.handles) > before:
+                        if g is None:
+                            new_group(h)
+                            g = groups[h]
+                        groups[before] = g
+                        copies[g] = copies.get(g, 0) + 1
+                        mates = [before]
+                if mates:
+                    c = rng.choice(mates)
+                    k = rng.choice(KEYS)
+                    edit = [[], ["set", k, typed(rng.choice(VALS[k]))]]
+                    mode = rng.choice(["one", "copy", "pair", "fresh-one", "fresh-pair"])
+                    if mode in ("one", "copy"):
+                        before, ns = len(W.handles), len(W.sessions)
+                        yield ["Pickle", h if mode == "one" else c]
+                        if len(W.handles) > before:
+                            new_group(before)
+                            if len(W.sessions) > ns:
+                                sess_root.append(os.path.relpath(W.sessions[-1].path, W.root))
+                            yield rng.choice([["Edit", before] + edit, ["Init", before, False], ["Sp", before]])
+                            yield ["IdPath", before]
+                    elif mode == "pair":
+                        before, ns = len(W.handles), len(W.sessions)
+                        yield ["Pickle2", h, c]
+                        if len(W.handles) > before:
+                            new_group(before)
+                            groups[before + 1] = groups[before]
+                            copies[groups[before]] = 2
+                            if len(W.sessions) > ns:
+                                sess_root.append(os.path.relpath(W.sessions[-1].path, W.root))
+                            first, second = (before, before + 1) if rng.random() < 0.5 else (before + 1, before)
+                            if rng.random() < 0.5:
+                                yield ["Init", first, False]
+                            yield ["Edit", first] + edit
+                            yield ["IdPath", second]
+                            yield ["Sp", second]
+                    else:
+                        fops = [["Sp", 0], ["IdPath", 0]]
+                        two = mode == "fresh-pair"
+                        r2 = rng.random()
+                        if r2 < 0.35:
+                            fops.append(["Init", 0])
+                        if r2 < 0.7:
+                            fops.append(["DocSet", 1 if two else 0, rng.choice(DOCKEYS), typed(rng.choice(DOCVALS))])
+                        if rng.random() < 0.5:
+                            fops.append(["Edit", 0] + edit)
+                            fops.append(["IdPath", 1 if two else 0])
+                        yield ["Fresh", h, c if two else None, fops]
             elif pat == "mutate-assigned":
                 # the caller keeps mutating the mapping it assigned / passed to update_statepoint; the job is then
                 # opened by id in the same session and, after update_cache, in a fresh one (fix 64999d6)
@@ -433,7 +500,7 @@ def random_ops(desc, W):
         elif r < 0.87:
             before = len(W.handles)
             ns = len(W.sessions)
-            if rng.random() < 0.5 or h in shared:
+            if rng.random() < 0.5:
                 yield ["DeepCopy", h]
             else:
                 yield ["Pickle", h]
